@@ -348,29 +348,50 @@ class Check(PropertyCheck):
     prop = "C31"
     design_ref = "§5 C31"
     level_text = (
-        "Lean theorems over ALL call histories (induction on the op list, invariant: the cache entry (e,c,err,d) has a "
-        "cached-kind coding and the uncached decoder maps e to d): decode_transparent (every encoding.decode result equals "
-        "the uncached result exactly), encode_semantically_transparent, set_get_content, raw_decodes_to_content_lenient "
-        "(raw decodes to the assigned content under mitmproxy's own uncached decoder), raw_decodes_to_content_partial "
-        "(under strict reference decoders for histories without a lenient-only decode / without a lenient cache hit), "
-        "raw_decodes_to_content_counterexample (the full strict statement is false: F-C31a), "
-        "content_length_eq_raw_len_without_TE, decode_encode_preserves. The model (cache hit/miss/update rule, "
-        "Message.set_content/get_content/decode/encode incl. header removal, TypeError escape, Content-Length rule) is "
-        "tied to the real module by differential replay of random/structured/small-scope-exhaustive op histories: result, "
-        "cache tuple, both message states and the predicted uncached codec call are compared after every op; the name "
-        "tables (custom codec keys, the two cached tuples) are regenerated from the live source on every run.")
+        "21 Lean theorems, each over ALL call histories (any interleaving of encoding.decode/encode on arbitrary bodies and "
+        "of set_content/get_content/Message.decode/Message.encode/header mutations on two messages sharing the one cache "
+        "entry), by induction on the op list via `stepWith_cache` (what one op can do to the cache) and the invariant "
+        "'the entry (e,c,err,d) has a compressed coding and the uncached decoder maps e to d'. "
+        "Transparency: decode_transparent (encoding.decode = uncached result, all names/outcomes), "
+        "encode_semantically_transparent, get_content_transparent (get_content = `contentOf`, the cache-free reading of the "
+        "message: bytes/None/ValueError/TypeError alike), get_content_history_independent (two arbitrary histories leaving a "
+        "message in the same state read the same content), message_ops_isolated + get_content_pure_on_message (only setters/"
+        "decode/encode/mutators of message j can change message j; everything else reaches it through the cache only). "
+        "Round trips / idempotence at every reachable state: set_get_content, unknown_coding_removed, set_content_idempotent "
+        "(second identical assignment leaves messages AND cache exactly as the first), set_set_last_wins, get_content_idempotent, "
+        "decode_idempotent, decode_encode_preserves and decode_encode_preserves_interleaved (arbitrary non-writing sub-histories "
+        "between decode, encode and the read), encode_after_encode (encode wraps: dec_c1(dec_c2 raw) = v, content becomes the "
+        "c1 stream). Content-Length: content_length_eq_raw_len_without_TE (one step, any coding, any codec result) and "
+        "content_length_invariant (carried along any non-writing tail after a completed set_content/decode/encode). Raw body: "
+        "raw_decodes_to_content_lenient (all histories, mitmproxy's own decoder), raw_decodes_to_content_partial / _partial_hit "
+        "(strict reference decoder, F-C31a class excluded by a decidable guard), raw_decodes_to_content_counterexample. "
+        "Everything of Message.set_content/get_content/decode/encode is inside the model: None body, set_content(None), encode "
+        "on a missing body, empty-string / absent / identity / none / unknown / bytes-codec / text-codec headers, header removal "
+        "on an invalid coding, TypeError escape (encode leaves its header set), strict vs non-strict, Transfer-Encoding rule, "
+        "Content-Length. Tie: differential replay of small-scope-exhaustive, templated and random histories; after every op the "
+        "result, the cache tuple, both message states and the predicted uncached codec call (name, errors, data) are compared; "
+        "spies assert the real code makes at most that one uncached call; the values of `last` / `rawof` re-assignments are "
+        "resolved by the model itself; name tables are regenerated from the live module every run.")
     level_note = (
-        "assumed, not verified: the compression libraries are a parameter of the theorems (structure Codecs with laws: "
-        "cached codings always encode, decoder inverts encoder, decode of the empty body is empty, unknown names fail, "
-        "the lenient decoder extends the strict reference decoder); the laws are hypotheses, sampled by the harness "
-        "oracle on the real gzip/zlib/brotli/zstd, never proved about them. Coding names are ASCII (str.lower = ASCII "
-        "lower). Names outside the generated probe list are classed 'unknown' (= LookupError). "
-        "raw_decodes_to_content is FALSE at full strength on the unchanged code (finding F-C31a: after a lenient-only "
-        "decode is cached, re-assigning the same content stores the peer's original bytes which strict decoders reject, "
-        "e.g. empty body under br/zstd/deflate, truncated gzip, zlib-wrapped 'gzip'); the full statement is kept as "
-        "`RawDecodesToContent`, proved partial + counterexample. Observation (no claim in the statement, not flagged): "
-        "Python text codecs as Content-Encoding (utf8, latin-1, rot13) let TypeError escape from set_content/"
-        "Message.encode (Message.encode leaves the header set); the model reproduces it (result terr).")
+        "assumed, not proved: the compression libraries are the parameter `Codecs` of every theorem (laws as structure "
+        "fields: compressed codings always encode, the decoder inverts the encoder, decoding the empty body gives the empty "
+        "body, a decoder yields bytes or ValueError, unknown names fail both ways, the strict reference decoder accepts encoder "
+        "output and the lenient decoder extends it). The laws are satisfiable (instance `toy`) and sampled every run by the "
+        "oracle on the real gzip/zlib/brotli/zstd; the only observed values fed to the model are the uncached codec results "
+        "(`fresh`) — that is this parameter. Coding names are ASCII (str.lower = ASCII lower); names outside the generated probe "
+        "list are classed unknown (= LookupError). The idempotence / round-trip theorems speak about headers whose coding is an "
+        "identity name, a compressed coding or unknown (`OkName`); for Python bytes-/text-codecs used as a coding only the "
+        "transparency, isolation and Content-Length theorems apply (the property statement makes no claim there). "
+        "raw_decodes_to_content is FALSE at full strength on the unchanged code (finding F-C31a: after a lenient-only decode is "
+        "cached, re-assigning the same content stores the peer's original bytes, which strict decoders reject — empty body under "
+        "br/zstd/deflate, truncated gzip, zlib-wrapped 'gzip'); kept as `RawDecodesToContent`, proved partial + counterexample. "
+        "known() excuses only the clauses [raw-ref] / [hist-raw] / [hist-enc] and only when the op made no codec call, the pre-op "
+        "cache entry is exactly (bytes, coding, errors, content), the strict decoder rejects the bytes, mitmproxy's own decoder "
+        "maps them to the content, and the entry was made by a real decode call of this history (known_selftest, 42 triples, runs "
+        "in setup()). Oracle reading: assigning None and assignments under bytes-/text-codecs carry no claim (exceptions other than "
+        "ValueError/TypeError are still flagged); `deflateraw` is checked for read-back/history independence but not against an "
+        "independent decoder (no independent definition of that label). Observation, not flagged: text codecs as Content-Encoding "
+        "(utf8, latin-1, rot13) let TypeError escape from set_content/Message.encode; the model reproduces it (terr).")
     technique = "Lean 4 proof (cache invariant by induction over op histories, codecs as a law-carrying parameter) + differential history correspondence + generated name tables"
     rule = ("a case is a history of 3-30 ops (encoding.decode/encode with errors strict/replace, set_content/get_content/"
             "Message.decode/Message.encode on two messages, raw/header mutators) over a per-case pool of bodies (empty, "
